@@ -119,6 +119,10 @@ type Morass struct {
 	filesLock sync.Mutex
 	files     files
 
+	// writers counts the calls to write that
+	// have not yet finished with their file.
+	writers sync.WaitGroup
+
 	errLock sync.Mutex
 	_err    error
 }
@@ -180,6 +184,7 @@ func (m *Morass) Push(e LessInterface) error {
 
 	if len(m.chunk) == m.chunkSize {
 		m.writable <- m.chunk
+		m.writers.Add(1)
 		go m.write()
 		m.chunk = <-m.pool
 		if err := m.err(); err != nil {
@@ -198,6 +203,7 @@ func (m *Morass) Push(e LessInterface) error {
 }
 
 func (m *Morass) write() {
+	defer m.writers.Done()
 	writing := <-m.writable
 	defer func() {
 		m.pool <- writing[:0]
@@ -262,10 +268,16 @@ func (m *Morass) Finalise() error {
 			if len(m.chunk) > 0 {
 				m.writable <- m.chunk
 				m.chunk = nil
+				m.writers.Add(1)
 				m.write()
 				if err := m.err(); err != nil {
 					return err
 				}
+			}
+			// Every run must be complete before it is read back.
+			m.writers.Wait()
+			if err := m.err(); err != nil {
+				return err
 			}
 		}
 		m.pos = 0
